@@ -274,8 +274,11 @@ class WireGen:
     def unknown_record(self, known: set) -> bytes:
         rng = self.rng
         for _ in range(100):
-            n = rng.choice([rng.randint(1, 40), rng.randint(41, 3000), rng.randint(3000, 2**29 - 1), 2**29 - 1])
-            if n not in known and not (19000 <= n <= 19999):
+            # any number: also the window 19000..19999 that is reserved in SCHEMAS only -- on the wire it is an ordinary
+            # unknown number (the reference keeps and re-emits it)
+            n = rng.choice([rng.randint(1, 40), rng.randint(41, 3000), rng.randint(3000, 2**29 - 1), 2**29 - 1,
+                            rng.choice([18999, 19000, 19500, 19999, 20000])])
+            if n not in known:
                 break
         wt = rng.choice([0, 1, 2, 5])
         # well-formed but not necessarily minimal: an unknown record must come back byte-for-byte
